@@ -128,15 +128,19 @@ class ControlServer(ABC, Generic[ClientT]):
         that ensures that the `_final_callback` method is called, when the
         former method ends for whatever reason.
         """
-        if self._server is None:
+        server = self._server
+        if server is None:
             raise ServerNotInitialized
         try:
-            async with self._server:
-                await self._server.serve_forever()
+            async with server:
+                await server.serve_forever()
         except CancelledError:
             log.debug("%s stopped", self.__class__.__name__)
         finally:
-            self._final_callback()
+            # If `serve_forever` was called again in the meantime, the address
+            # (e.g. the socket file) belongs to the newer server by now.
+            if self._server is server:
+                self._final_callback()
 
     async def serve_forever(self) -> Task[None]:
         """
